@@ -36,10 +36,15 @@ def _convert_name_to_convention(
 
     # UpperCamelCase for class names
     if is_class_name:
-        return "".join(part[0].upper() + part[1:] for part in name_parts if part)
+        converted_name = "".join(part[0].upper() + part[1:] for part in name_parts if part)
+    else:
+        # Normal camelCase for everything else
+        converted_name = name_parts[0] + "".join(part[0].upper() + part[1:] for part in name_parts[1:] if part)
 
-    # Normal camelCase for everything else
-    return name_parts[0] + "".join(part[0].upper() + part[1:] for part in name_parts[1:] if part)
+    # Names like "__" or "_1x" have no camelCase form that is an identifier; keep them as they are
+    if not converted_name or converted_name[0].isdigit():
+        return name
+    return converted_name
 
 
 def _get_shortest_public_reexport(
